@@ -688,8 +688,12 @@ def run_case(case, model):
             id = orig_write(env, clock.now + 3)
             R.kid[id] = k
             R.idk[k] = id
+            # a message the storage held before this queue started may have been attempted before (QM.startAt): its counter goes on
+            pre_att = (k * 7 + case.get('seed', 0)) % 3
+            for _ in range(pre_att):
+                orig_incr(id)
             R.labels.append('PRE%d:%d' % (k, 3))
-            R.qlabels.append('PRE%d:%d:%s:%d' % (k, 3, dots(rnums(env.recipients)), 1 if env.sender else 0))
+            R.qlabels.append('PRE%d:%d:%s:%d:%d' % (k, 3, dots(rnums(env.recipients)), 1 if env.sender else 0, pre_att))
         q.start()
         gevent.spawn(lambda: None)
         observe(['start'])
